@@ -9,9 +9,14 @@ EXPLANATION = ("A1 start(): on the path where one of the caller's controls has t
                "them in order; A2 next(): anything but Ok(None) is returned unchanged; on Ok(None) the response control is looked up by "
                "ControlType::PagedResults in the stored result and parsed as PagedResults; an empty cookie removes exactly that control and "
                "ends; a non-empty cookie issues streaming_search(self.base, self.scope, self.filter, self.attrs) on a clone of the saved "
-               "handle (timeout, options copied) whose controls are the saved ones plus PagedResults{size: self.page_size, cookie: the "
-               "parsed cookie}, and splices the new stream's handle and receiver into the running stream; a failed follow-up is returned as "
-               "the error; A3 codec: C19. Not decided: number of pages, exactly-once delivery over a run, termination.")
+               "handle (timeout, options copied) whose controls are - element by element, whatever pushes, pops, truncations, retains the "
+               "code applies to the vector, on an owned copy or through a `&mut` into the saved handle - every saved control followed by one "
+               "PagedResults{size: self.page_size, cookie: the parsed cookie}, and splices the new stream's handle and receiver into the "
+               "running stream; a failed follow-up is returned as the error; on every path next() leaves the fields a follow-up is built "
+               "from (saved handle with its controls / timeout / options, base, scope, filter, attrs, page size) as it found them, so page "
+               "n+1 is asked for like page 2; the saved controls hold no paging control (start() saves them filtered, only start() and "
+               "next() can write the saved handle), which makes a path of next() that finds one infeasible; A3 codec: C19. Not decided: "
+               "number of pages, exactly-once delivery over a run, termination.")
 TRUSTED = ['the server returns cookies as RFC 2696 says', 'C19 (paging control codec)', 'C10 (stream state machine)']
 UNDECIDED = ['exactly-once delivery / number of pages / termination over a run (runtime quantities)']
 ASSUMPTIONS = ['a generic control stands for every element of the control lists']
@@ -20,6 +25,7 @@ SHARED = [('C02', ('M1.', 'S.request-shape'), 'A4.options-reach-the-adapter')]
 PR = "<ldap3::adapters::PagedResults<S, A> as ldap3::adapters::Adapter<'a, S, A>>::"
 OID = '1.2.840.113556.1.4.319'
 SELF, STREAM = ('param', 'self'), ('param', 'stream')
+HANDLE_FN = "ldap3::search::SearchStream::<'a, S, A>::ldap_handle"
 
 def inner(root):
     for n, c in walk(root):
@@ -30,13 +36,106 @@ def inner(root):
 def is_paging(t, size_ok, cookie_ok):
     return t[0] == 'struct' and t[1].endswith('paged_results::PagedResults') and size_ok(dict(t[2]).get('size')) and cookie_ok(dict(t[2]).get('cookie'))
 
+def content(t, whole):
+    """A vector term as the ordered list of its segments: ('all', x) - every element of the vector x for which whole(x) holds -,
+    ('one', element), ('opaque', term) for anything whose elements the interpreter does not know.  Read off the interpreter's
+    vector terms: a literal vector, a push on top of a vector, a vector the last n elements of which were popped, the element-wise
+    image of a vector on a path on which the generic element is kept as it is (retain / filter) or dropped."""
+    if t[0] in ('vec', 'array'):
+        return [('one', x) for x in t[1]]
+    if whole(t):
+        return [('all', t)]
+    if t[0] == 'vecpush':
+        return content(t[1], whole) + [('one', t[2])]
+    if t[0] == 'popped':
+        c = content(t[1], whole)
+        if t[2] <= len(c) and all(x[0] == 'one' for x in c[len(c) - t[2]:]):
+            return c[:len(c) - t[2]]       # what was popped is what had been pushed
+        return [('opaque', t)]              # elements of a segment of unknown length are gone
+    if t[0] == 'many' and t[3] == t[2]:
+        return content(t[1], whole)         # the generic element stays
+    if t[0] == 'many' and t[3] == ('skip',):
+        return [('dropped', t[1])]          # the generic element of the source is removed
+    return [('opaque', t)]
+
+def rooted_in(t, root):
+    """t is a place below root: root itself, a field of it, the payload of an Option in it ..."""
+    while isinstance(t, tuple) and t:
+        if t == root:
+            return True
+        if t[0] in ('field', 'variant'):
+            t = t[1]
+        else:
+            return False
+    return False
+
+def state_changes(o, root, I):
+    """What a path leaves changed in the places below root (the adapter's saved state), as a list of descriptions.  A place is
+    unchanged when nothing was stored to it, or what it holds in the end is what it held on entry (also written back as
+    Some(its own payload)).  A `&mut` method / `&mut` argument on such a place whose effect the interpreter has not modelled as a
+    store counts as a change: the rule cannot read it.  (Which place a receiver / argument expression denotes is read off the
+    expression - Interp.place_of -, not off its value term: an owned copy of the saved controls has the same value term.)"""
+    out = []
+    for k, v in o.st.heap.items():
+        if k[0] == 'field' and rooted_in(k, root):
+            if v == k or v == ('ctor', 'Some', (('variant', k, 'Some', 0),)):
+                continue
+            out.append('%s := %s' % (absx.fmt(k), absx.fmt(v)[:90]))
+    modelled = {id(e[3]) for e in o.st.ev if e[0] == 'store'}
+    for e in o.st.ev:
+        if e[0] == 'store-unknown' and isinstance(e[1], tuple) and rooted_in(e[1], root):
+            out.append('store to %s' % absx.fmt(e[1]))
+        if e[0] != 'call' or id(e[3]) in modelled or e[1] in (absx.Interp.TAKE, 'core::mem::take', 'core::mem::replace'):
+            continue
+        n = e[3]
+        muts = [a for a in n.get('args', []) if (a.get('ty') or '').startswith('&mut ')]
+        if n.get('k') == 'MethodCall' and (n['recv'].get('adj_ty') or n['recv'].get('ty') or '').startswith('&mut '):
+            muts.append(n['recv'])
+        for a in muts:
+            P = I.place_of(a)
+            if P is not None and rooted_in(P, root):
+                out.append('%s(&mut %s ..) - effect not modelled' % (e[1].rsplit('::', 1)[-1], absx.fmt(P)))
+    return out
+
+def template_writers(f):
+    """Bodies other than start() / next() of the adapter that could write the saved handle (who-may-touch, F10): they use the
+    adapter's field of type Option<Ldap> - or a place inside it - mutably: as the target of an assignment, under `&mut`, or as the
+    receiver of a `&mut self` method."""
+    out = []
+    for path, n, c in hirq.field_accesses(f, lambda n: hirq.strip_refs(n.get('ty') or '') == 'core::option::Option<ldap3::ldap::Ldap>'
+                                          and hirq.strip_refs(n['e'].get('ty') or '').startswith('ldap3::adapters::PagedResults<')):
+        if path.startswith(PR + 'start') or path.startswith(PR + 'next'):
+            continue
+        top, up = n, list(c)
+        while True:
+            if (top.get('adj_ty') or '').startswith('&mut '):
+                out.append(path); break
+            if not up:
+                break
+            par, role = up.pop()
+            if par['k'] in ('Assign', 'AssignOp') and par['l'] is top:
+                out.append(path); break
+            if par['k'] == 'AddrOf' and par.get('mut') and par['e'] is top:
+                out.append(path); break
+            if (par['k'] in ('Field', 'Index') and par['e'] is top) or (par['k'] == 'Unary' and par.get('op') == 'Deref') \
+                    or (par['k'] == 'MethodCall' and par['recv'] is top and hirq.is_transparent(callee_of(par) or '')):
+                top = par; continue       # a place inside the field / a reborrow of it: look at how *that* is used
+            break
+    return sorted(set(out))
+
 def run(ctx):
     f = ctx.facts
     # ------------------------------------------------------------------ A1 start
     B = hirq.Body(f, f.body(PR + 'start'))
     ctx.analysed['bodies'].add(B.path)
-    outs = absx.Interp(f, B, unroll=1, for_once=True, combinators=True).run(root=inner(B.root))
+    if f.hir.get(HANDLE_FN) is not None:
+        ctx.analysed['bodies'].add(HANDLE_FN)
+    # the stream's handle is whatever the accessor hands out: its body is evaluated (today `&mut self.ldap`), so that a store through
+    # the reference it returns and a store to stream.ldap are the same store
+    outs = absx.Interp(f, B, unroll=1, for_once=True, combinators=True, places=True, inline=lambda cal: cal == HANDLE_FN).run(root=inner(B.root))
     seen = set()
+    template_clean = []       # per path of start() that saves the template: it holds no control with the paging OID
+    is_oid_test = lambda a: a[0] == 'bin' and a[1] == 'Eq' and a[3] == ('lit', OID) and a[2][0] == 'field' and a[2][2] == 'ctype'
     for o in outs:
         is_oid_test = lambda a: a[0] == 'bin' and a[1] == 'Eq' and a[3] == ('lit', OID) and a[2][0] == 'field' and a[2][2] == 'ctype'
         found = next((t for a, t in o.st.pc if is_oid_test(a)), None)
@@ -61,7 +160,7 @@ def run(ctx):
         h = o.st.heap
         saved = h.get(('field', SELF, 'ldap'), ('unk',))
         H = saved[2][0] if saved[0] == 'ctor' and saved[1] == 'Some' else ('unk',)
-        handle = ('call', 'ldap3::search::SearchStream::<\'a, S, A>::ldap_handle', (STREAM,), None)
+        handle = ('field', STREAM, 'ldap')
         def strip_site(t):
             if isinstance(t, tuple):
                 if t and t[0] == 'call' and len(t) == 4:
@@ -85,9 +184,12 @@ def run(ctx):
             # no control of the caller is a paging control (the any() test said so): the whole list is the filtered list
             okc = absx.leaves(filt, lambda x: strip_site(x) == ('field', handle, 'controls')) != [] and not absx.leaves(filt, lambda x: x[0] == 'struct' and x[1].endswith('PagedResults'))
         ctx.add('A1.saved-controls-without-paging', 'self.ldap.controls', loc(B.root), okc, 'the saved controls are not the caller\'s controls filtered of the paging control: %s' % absx.fmt(sc)[:100])
+        template_clean.append(okc)
         stc = h.get(('field', ('field', STREAM, 'ldap'), 'controls'), ('unk',))
         v = stc[2][0] if stc[0] == 'ctor' and stc[1] == 'Some' else ('unk',)
-        okp = v[0] == 'vecpush' and v[1] == filt and is_paging(v[2], lambda s: s == ('field', SELF, 'page_size'), lambda c: c == ('vec', ()))
+        segs = content(v, lambda x: x == filt)
+        okp = segs[:-1] == content(filt, lambda x: x == filt) and segs[-1:] and segs[-1][0] == 'one' \
+            and is_paging(segs[-1][1], lambda s: s == ('field', SELF, 'page_size'), lambda c: c == ('vec', ()))
         ctx.add('A1.first-request-control', 'stream.ldap.controls', loc(B.root), okp,
                 'the first request must carry the caller\'s controls plus PagedResults{size: self.page_size, cookie: empty}: %s' % absx.fmt(stc)[:120])
         oks = all(h.get(('field', SELF, n)) == ('param', n) for n in ('base', 'scope', 'filter')) and h.get(('field', SELF, 'attrs')) == ('ctor', 'Some', (('param', 'attrs'),))
@@ -101,12 +203,46 @@ def run(ctx):
     # ------------------------------------------------------------------ A2 next
     N = hirq.Body(f, f.body(PR + 'next'))
     ctx.analysed['bodies'].add(N.path)
-    outs = absx.Interp(f, N, unroll=1, for_once=True, combinators=True, inline=lambda cal: cal.startswith('ldap3::ldap::Ldap::with_')).run(root=inner(N.root))
+    I = absx.Interp(f, N, unroll=1, for_once=True, combinators=True, places=True, inline=lambda cal: cal.startswith('ldap3::ldap::Ldap::with_') or cal == HANDLE_FN)
+    outs = I.run(root=inner(N.root))
     seen = set()
+    saved = ('variant', ('field', SELF, 'ldap'), 'Some', 0)
+    T0 = ('variant', ('field', saved, 'controls'), 'Some', 0)        # the saved control template (as next() finds it)
+    # Invariant of the saved template: it holds no control with the paging OID.  start() establishes it on every path that saves a
+    # template (A1.saved-controls-without-paging), nothing but start() and next() can write the field (A1.template-writers), and
+    # next() leaves the adapter's saved state as it found it on every path (A2.saved-state-unchanged, judged on all paths, pruned or
+    # not).  Under it a path of next() on which a control of the template tests equal to the paging OID is infeasible.
+    writers = template_writers(f)
+    ctx.add('A1.template-writers', 'PagedResults.ldap', loc(N.root), not writers, 'the saved handle can be written outside start()/next(): %s' % ', '.join(writers))
+    inv = bool(template_clean) and all(template_clean) and not writers
+    def from_template(x):
+        return x[0] == 'elem' and x[1] in (T0, ('enumerate', T0))
+    def infeasible(o):
+        for a, t in o.st.pc:
+            if t and is_oid_test(a) and absx.leaves(a[2][1], from_template):
+                return True
+            if t and a[0] in ('any', 'position') and a[1] == T0 and a[3] and all(any(tr and is_oid_test(c) for c, tr in cnd) for cnd in a[3]):
+                return True
+        return False
+    judged = []
+    request_fields = set()      # the fields of the adapter a follow-up request is built from (read off the follow-up paths)
+    def judge_state(o, which):
+        judged.append((o, which))
+    def judge_state_now(o, which):
+        ch = [c for fld in sorted(request_fields) for c in state_changes(o, ('field', SELF, fld), I)]
+        ctx.add('A2.saved-state-unchanged', which, loc(N.root), not ch,
+                'next() must leave what it saved for the follow-up requests (handle, controls, base, scope, filter, attrs, page size) as it found it - '
+                'a later page would be asked for with something else: %s' % '; '.join(ch)[:200])
     for o in outs:
         ups = [e for e in o.st.ev if e[0] == 'call' and e[1].endswith("SearchStream::<'a, S, A>::next")]
         if len(ups) != 1:
             continue
+        if infeasible(o):
+            if not inv:
+                ctx.fail('A2.template-holds-no-paging-control', 'saved controls', loc(N.root), 'next() reckons with a paging control among the saved controls, and start() / the writers of the saved handle do not exclude it')
+            judge_state(o, 'template-with-paging-control')
+            if inv:
+                continue
         up = ('await', ('call', ups[0][1], ups[0][2], ups[0][3].get('id')))
         is_none = absx.pc_variant(o.st.pc, lambda v: v == ('variant', up, 'Ok', 0), 'None')
         searches = [e for e in o.st.ev if e[0] == 'call' and e[1].endswith('Ldap::streaming_search')]
@@ -114,11 +250,13 @@ def run(ctx):
         parses = [e for e in o.st.ev if e[0] == 'call' and e[1] == 'ldap3::controls_impl::RawControl::parse']
         if is_none is not True:
             seen.add('passthrough')
+            judge_state(o, 'passthrough')
             ctx.add('A2.passthrough', 'entries / errors', loc(N.root), sem.reconstructs(o.val, up) and not searches and not removes, 'anything but Ok(None) must be returned unchanged')
             continue
         res_some = next((t for a, t in o.st.pc if a == ('is', ('field', STREAM, 'res'), 'Some')), None)
         if res_some is False:
             seen.add('no-result')
+            judge_state(o, 'no-result')
             ctx.add('A2.no-result', 'stream.res is None', loc(N.root), o.val == ('ctor', 'Ok', (('ctor', 'None', ()),)) and not searches, 'without a stored result the adapter must just end')
             continue
         ctrls = ('field', ('variant', ('field', STREAM, 'res'), 'Some', 0), 'ctrls')
@@ -129,6 +267,7 @@ def run(ctx):
             is_pr = pos[0][0]
         if not is_pr:
             seen.add('no-paging-control')
+            judge_state(o, 'no-paging-control')
             ctx.add('A2.no-paging-control', 'result without the control', loc(N.root), o.val == ('ctor', 'Ok', (('ctor', 'None', ()),)) and not searches and not removes,
                     'a result without a paging control must end the search and leave the controls alone')
             continue
@@ -141,6 +280,7 @@ def run(ctx):
         empty = next((t for a, t in o.st.pc if a[0] == 'call' and a[1].endswith('::is_empty') and a[2][0] == cookie), None)
         if empty is True:
             seen.add('last-page')
+            judge_state(o, 'last-page')
             okr = len(removes) == 1 and removes[0][2][0] == ctrls and removes[0][2][1][0] == 'field' and removes[0][2][1][2] == '0' and removes[0][2][1][1][0] == 'elem' and not searches \
                 and o.val == ('ctor', 'Ok', (('ctor', 'None', ()),))
             # the index must count positions of the very vector it is applied to: enumerate() directly over that vector's
@@ -170,7 +310,6 @@ def run(ctx):
             ctx.fail('A2.follow-up', 'non-empty cookie', loc(N.root), 'a non-empty cookie must issue exactly one follow-up search'); continue
         s = searches[0]
         H2 = s[2][0]
-        saved = ('variant', ('field', SELF, 'ldap'), 'Some', 0)
         okc = H2[0] == 'call' and H2[1].endswith('::clone') and H2[2][0] == saved
         args_ok = s[2][1:] == (('field', SELF, 'base'), ('field', SELF, 'scope'), ('field', SELF, 'filter'), ('variant', ('field', SELF, 'attrs'), 'Some', 0))
         h = o.st.heap
@@ -188,11 +327,16 @@ def run(ctx):
         okt = carried_over('timeout') and carried_over('search_opts')
         c2 = h.get(('field', H2, 'controls'), ('unk',))
         v = c2[2][0] if c2[0] == 'ctor' and c2[1] == 'Some' else ('unk',)
-        okv = v[0] == 'vecpush' and v[1] == ('variant', ('field', saved, 'controls'), 'Some', 0) and is_paging(v[2], lambda x: x == ('field', SELF, 'page_size'), lambda c: c == cookie)
+        # what the control vector holds on this path, element by element: every saved control, then one paging control
+        segs = content(v, lambda x: x == T0)
+        okv = len(segs) == 2 and segs[0] == ('all', T0) and segs[1][0] == 'one' and is_paging(segs[1][1], lambda x: x == ('field', SELF, 'page_size'), lambda c: c == cookie)
         sterm = ('await', ('call', s[1], s[2], s[3].get('id')))
         sok = next((t for a, t in o.st.pc if a == ('is', sterm, 'Ok')), None)
         which = 'follow-up|ok' if sok is True else 'follow-up|err'
+        used = [s[2], c2] + [h.get(('field', H2, fld), ('unk',)) for fld in ('timeout', 'search_opts')]
+        request_fields.update(x[2] for x in absx.leaves(tuple(used), lambda x: x[0] == 'field' and x[1] == SELF))
         seen.add(which)
+        judge_state(o, which)
         ctx.add('A2.follow-up-handle', which, loc(s[3]), okc and okt, 'the follow-up search is not issued on a clone of the saved handle with its timeout and options')
         ctx.add('A2.follow-up-parameters', which, loc(s[3]), args_ok, 'the follow-up search does not repeat (self.base, self.scope, self.filter, self.attrs) in order: %s' % [absx.fmt(a) for a in s[2][1:]])
         ctx.add('A2.follow-up-controls', which, loc(s[3]), okv, 'the follow-up controls are not the saved ones plus PagedResults{size: self.page_size, cookie: <cookie just returned>}: %s' % absx.fmt(c2)[:140])
@@ -202,6 +346,8 @@ def run(ctx):
             ctx.add('A2.splices-new-stream', which, loc(N.root), oksp, 'after a successful follow-up the stream must continue on the new search\'s handle and receiver')
         else:
             ctx.add('A2.follow-up-error-returned', which, loc(N.root), o.kind == 'ret' and sem.is_err_result(o.val) and sem.has(o.val, lambda x: x == sterm) and not removes, 'a failed follow-up search must be returned as the error')
+    for o, which in judged:
+        judge_state_now(o, which)
     for need in ('passthrough', 'no-result', 'no-paging-control', 'last-page', 'follow-up|ok', 'follow-up|err'):
         ctx.add('A2.coverage', need, loc(N.root), need in seen, 'no path of next() for ' + need)
     # finish delegates
